@@ -930,8 +930,22 @@ func (h *v20Hist) injAsync(fatal bool) {
 			componentstatus.ReportStatus(host, componentstatus.NewRecoverableErrorEvent(errors.New("v20-recoverable")))
 		}
 		h.stats["fatal_from_"+pre]++
+		// the fatal event itself: with an error value, or without one (both constructors allow it)
+		var fev *componentstatus.Event
+		switch h.r.Intn(3) {
+		case 0:
+			fev = componentstatus.NewFatalErrorEvent(errors.New("v20-fatal"))
+			pre += "+err"
+		case 1:
+			fev = componentstatus.NewFatalErrorEvent(nil)
+			pre += "+nil-err"
+		default:
+			fev = componentstatus.NewEvent(componentstatus.StatusFatalError)
+			pre += "+plain-event"
+		}
+		h.stats["fatal_event_"+pre]++
 		go func() {
-			componentstatus.ReportStatus(host, componentstatus.NewFatalErrorEvent(errors.New("v20-fatal")))
+			componentstatus.ReportStatus(host, fev)
 			s.done.Store(true)
 		}()
 		// the sender is inside the reporter's critical section once the status watcher saw the event;
@@ -956,6 +970,32 @@ func (h *v20Hist) injAsync(fatal bool) {
 				}
 			}
 			time.Sleep(200 * time.Microsecond)
+		}
+		// The report must now be waiting for the run loop (or, inside a retirement, be received by the
+		// draining goroutine).  A report that has RETURNED while nobody can have received it — Run is
+		// parked outside service.Shutdown, or sits in the select and stays Running — was dropped on the
+		// way to the asynchronous error channel.
+		if h.pc != v20PcReload {
+			dropped := false
+			if h.pc == v20PcIdle {
+				for t0 := time.Now(); time.Since(t0) < 5*time.Second; {
+					if h.w.col.GetState() != StateRunning || !s.done.Load() {
+						break
+					}
+					time.Sleep(200 * time.Microsecond)
+				}
+				dropped = s.done.Load() && h.w.col.GetState() == StateRunning
+			} else {
+				for t0 := time.Now(); time.Since(t0) < 20*time.Millisecond && !s.done.Load(); {
+					time.Sleep(200 * time.Microsecond)
+				}
+				dropped = s.done.Load()
+			}
+			if dropped {
+				h.fail("fatal-error-not-delivered", fmt.Sprintf("a component of the running service (generation %d, %s) reported StatusFatalError; the status watchers saw it, the report returned, but nothing was sent on asyncErrorChannel: the collector keeps running", g, pre))
+				h.emit(v20LAsync, 1+g, false)
+				return
+			}
 		}
 		h.asyncQ = append(h.asyncQ, s)
 		h.emit(v20LAsync, 1+g, h.pc != v20PcIdle)
